@@ -148,7 +148,10 @@ Proof.
   - intros [[H Hne]|[_ H]]; [|discriminate]. split; [exact H|]. intros [_ ->]. tauto.
 Qed.
 
-Lemma Inv_step g t g' : Inv g -> tstep true g t = Some g' -> Inv g'.
+Section Faulty.
+Variable faulty : nat -> bool.
+
+Lemma Inv_step g t g' : Inv g -> tstep true faulty g t = Some g' -> Inv g'.
 Proof.
   intros HI Hs. pose proof HI as [Hd Ho Hl Hv]. unfold tstep in Hs.
   destruct (nth_error (g_pcs g) t) as [p|] eqn:Et; [|discriminate].
@@ -184,6 +187,7 @@ Proof.
     inversion Hs; subst; clear Hs.
     eapply Inv_update; [exact HI|exact Et|exact Hd|eapply locks_same; eauto| |discriminate].
     intros u q j Hne Hn Hq. exfalso. apply Hne. eapply (valid_unique g u t); eauto. reflexivity.
+    (* both outcomes of the unlink: no other contender is validated, so nothing depends on the new path *)
   - (* unlock *)
     inversion Hs; subst; clear Hs.
     eapply Inv_update; [exact HI|exact Et|now apply NoDup_drop|eapply locks_drop; eauto|(let u := fresh in let q := fresh in let j0 := fresh in intros u q j0 ? ? ?; try rewrite Ep; eapply Hothers; eauto)|discriminate].
@@ -193,12 +197,12 @@ Proof.
   - discriminate.
 Qed.
 
-Lemma Inv_reachable n g : reachable (tstep true) (init n) g -> Inv g.
+Lemma Inv_reachable n g : reachable (tstep true faulty) (init n) g -> Inv g.
 Proof. apply inv_reachable; [apply Inv_init | intros; eapply Inv_step; eauto]. Qed.
 
 (** * C33_exclusive *)
 Theorem dirlock_exclusive n g :
-  reachable (tstep true) (init n) g ->
+  reachable (tstep true faulty) (init n) g ->
   forall t u i j, nth_error (g_pcs g) t = Some (PHold i) -> nth_error (g_pcs g) u = Some (PHold j) -> t = u.
 Proof.
   intros Hr t u i j Ht Hu. eapply valid_unique; eauto using Inv_reachable; reflexivity.
@@ -232,7 +236,7 @@ Qed.
 
 (** the observable form: the list of contenders that have the directory has at most one element *)
 Theorem dirlock_exclusive_holders n g :
-  reachable (tstep true) (init n) g -> at_most_one (holders g).
+  reachable (tstep true faulty) (init n) g -> at_most_one (holders g).
 Proof.
   intros Hr. unfold at_most_one, holders.
   pose proof (holders_from_NoDup (g_pcs g) 0%nat) as Hnd.
@@ -246,8 +250,10 @@ Proof.
   inversion Hnd as [|? ? Hn _]; subst. apply Hn. now left.
 Qed.
 
-Theorem dirlock_exclusive_run n sched : at_most_one (holders (run (tstep true) (init n) sched)).
+Theorem dirlock_exclusive_run n sched : at_most_one (holders (run (tstep true faulty) (init n) sched)).
 Proof. apply (dirlock_exclusive_holders n), run_reachable. Qed.
+
+End Faulty.
 
 (** * the step order before the repair is refuted by a 3-contender schedule (F29):
       0 acquires and starts to release (unlock); 1 opens the same inode and locks it;
@@ -255,15 +261,15 @@ Proof. apply (dirlock_exclusive_holders n), run_reachable. Qed.
 Definition f29_schedule : list nat := [0; 0; 0; 0; 1; 1; 0; 0; 2; 2]%nat.
 
 Theorem dirlock_unfixed_refuted :
-  exists n sched, holders (run (tstep false) (init n) sched) = [1; 2]%nat.
+  exists n sched, holders (run (tstep false (fun _ => false)) (init n) sched) = [1; 2]%nat.
 Proof. exists 3%nat, f29_schedule. vm_compute. reflexivity. Qed.
 
 (** removing before unlocking alone (without the re-check after flock) is refuted too: the model with
     the old acquire path is [tstep false]; the repaired acquire path is needed.  The repaired model
     passes the same schedule: *)
 Example dirlock_fixed_on_f29 :
-  holders (run (tstep true) (init 3) f29_schedule) = [] /\
-  holders (run (tstep true) (init 3) [0; 0; 0]%nat) = [0%nat].
+  holders (run (tstep true (fun _ => false)) (init 3) f29_schedule) = [] /\
+  holders (run (tstep true (fun _ => false)) (init 3) [0; 0; 0]%nat) = [0%nat].
 Proof. split; vm_compute; reflexivity. Qed.
 
 (** oracle *)
